@@ -1567,6 +1567,14 @@ impl<'a> AstResolver<'a> {
                     self.use_type(state, u, &mut ty.uses, &mut ty.imports, packages, true)?
                 }
                 ast::WorldItem::Type(decl) => {
+                    if ty.imports.contains_key(decl.id().string) {
+                        return Err(Error::DuplicateWorldItem {
+                            kind: ExternKind::Import,
+                            name: decl.id().string.to_owned(),
+                            world: world.to_owned(),
+                            span: decl.id().span,
+                        });
+                    }
                     self.item_type_decl(state, decl, &mut ty.imports)?;
                 }
                 ast::WorldItem::Import(i) => {
@@ -1879,6 +1887,13 @@ impl<'a> AstResolver<'a> {
                     self.use_type(state, u, &mut ty.uses, &mut ty.exports, packages, false)?
                 }
                 ast::InterfaceItem::Type(decl) => {
+                    if ty.exports.contains_key(decl.id().string) {
+                        return Err(Error::DuplicateInterfaceExport {
+                            name: decl.id().string.to_owned(),
+                            interface_name: name.map(ToOwned::to_owned),
+                            span: decl.id().span,
+                        });
+                    }
                     self.item_type_decl(state, decl, &mut ty.exports)?;
                 }
                 ast::InterfaceItem::Export(e) => {
